@@ -154,22 +154,56 @@ func (Engine) Run(t *tape.Tape, o eng.Opts) *eng.Result {
 			// Recovery only protects what runs inside its own call of Next(): its dynamic extent is
 			// recorded by the wrapper the builder puts around it (Recovery( ... )Recovery events).
 			inFrame := make([]bool, len(q.Events)+1)
+			// byOuterNext[i]: at event i a Next() call is open that a handler placed in front of
+			// Recovery issued after Recovery had already returned (the one way the pinned tree resumes
+			// the chain outside Recovery's frame: recorded finding D5). Anything else that runs a
+			// handler behind Recovery outside its frame is the chain advancing on its own.
+			byOuterNext := make([]bool, len(q.Events)+1)
 			depth := 0
+			recReturned := false
+			var openOuter []int
 			for i, e := range q.Events {
 				switch e.K {
 				case world.EvRecEnter:
 					depth++
 				case world.EvRecExit:
 					depth--
+					recReturned = true
+				case world.EvNextCall:
+					if h := idxOf(int(e.H)); h >= 0 && h < recIdx && depth == 0 && recReturned {
+						openOuter = append(openOuter, int(e.H))
+					}
 				}
 				inFrame[i] = depth > 0
+				byOuterNext[i] = len(openOuter) > 0
+				if e.K == world.EvNextRet || e.K == world.EvNextPanic {
+					if n := len(openOuter); n > 0 && openOuter[n-1] == int(e.H) {
+						openOuter = openOuter[:n-1]
+					}
+				}
 			}
 			inFrame[len(q.Events)] = depth > 0
 			unwinding := false
+			var running []int // handlers that have started and not yet returned, innermost last
+			justExited := -1  // the handler whose exit event is the previous event (its return values are rendered next)
 			for i, e := range q.Events {
+				je := justExited
+				switch e.K {
+				case world.EvExit, world.EvPanicOut:
+					if n := len(running); n > 0 {
+						running = running[:n-1]
+					}
+					justExited = -1
+					if e.K == world.EvExit {
+						justExited = idxOf(int(e.H)) // its return values are rendered next, by the framework
+					}
+				case world.EvEnter, world.EvNextRet, world.EvNextPanic, world.EvRecEnter, world.EvRecExit, world.EvSwallow:
+					justExited = -1 // control has moved on
+				}
 				switch e.K {
 				case world.EvEnter:
 					lastEntered = idxOf(int(e.H))
+					running = append(running, lastEntered)
 					started[lastEntered] = true
 					unwinding = false
 				case world.EvSpyHeader:
@@ -194,12 +228,27 @@ func (Engine) Run(t *tape.Tape, o eng.Opts) *eng.Result {
 					}
 					at := idxOf(int(e.H))
 					if e.A < 0 || at < 0 {
+						// a BeforeFunc panics inside whoever's write triggered it: the handler whose return
+						// values are being rendered, else the innermost one still running
 						at = lastEntered
+						if je >= 0 {
+							at = je
+						} else if n := len(running); n > 0 {
+							at = running[n-1]
+						}
 					}
 					panics = append(panics, panicInfo{evIdx: i, chain: at, kind: k, hasTok: tok, statusBefore: status})
 					unwinding = true
 				case world.EvSpyRefuse:
-					panics = append(panics, panicInfo{evIdx: i, chain: lastEntered, kind: "refused-status", statusBefore: status})
+					// whose write was refused: the handler whose return values are being rendered, else
+					// the innermost handler still running, else the last one that started
+					at := lastEntered
+					if je >= 0 {
+						at = je
+					} else if n := len(running); n > 0 {
+						at = running[n-1]
+					}
+					panics = append(panics, panicInfo{evIdx: i, chain: at, kind: "refused-status", statusBefore: status})
 					unwinding = true
 				case world.EvNextPanic, world.EvPanicOut, world.EvEscaped:
 					if !unwinding {
@@ -257,6 +306,10 @@ func (Engine) Run(t *tape.Tape, o eng.Opts) *eng.Result {
 					// the panicking handler was (re)started by a further Next() of a middleware placed in
 					// front of Recovery, after Recovery's own Next() had returned
 					m["outside-recovery-frame"] = "yes"
+					m["resumed-by"] = "chain-advanced-on-its-own"
+					if byOuterNext[pi.evIdx] {
+						m["resumed-by"] = "next-of-outer-middleware"
+					}
 				}
 				return m
 			}
